@@ -49,4 +49,14 @@ def read(ctx, storage: str, kind: str, location: str, sid: str, content=None, re
     return feeds.norm(data.to_rows(), sid)
 
 
-OPS = {'read': read}
+def read2(ctx, reads: list, schedule: list):
+    """Two readers of one process, interleaved at the tracked file-system calls by an explicit schedule."""
+    from crashbox import threads  # pylint: disable=import-outside-toplevel
+
+    _boot(ctx)
+    inter = threads.Interleaver(ctx['disk'], schedule)
+    results = inter.run([lambda a=a: read(ctx, **a) for a in reads])
+    return {'results': results, 'switches': inter.switches, 'decisions': inter.decisions}
+
+
+OPS = {'read': read, 'read2': read2}
